@@ -249,7 +249,7 @@ class C05(EmuCheck):
                  "behaviour of original and reordered block compared through the real emulator under TLC trace validation")
     rule = ("blocks: every block of <= 3 (thorough: also 4 over a reduced alphabet) abstract instructions over the "
             "16-instruction alphabet (register/memory reads and writes, fence, system call, atomic, ip-writing non-jump, "
-            "terminating conditional jump) x every order reachable by moves the specification admits, each history extended "
+            "terminating conditional jump) x every order reachable by moves the specification admits (quick tier: a sixth of them, rotating with the seed), each history extended "
             "by further seeded (from, to) requests; synthetic instructions compute injective-looking hashes of what they "
             "read, so a reordered conflict changes the final state; multi-block codes with block moves; original and "
             "reordered code are run by the real emulator from the same provider-supplied state (2 seeds); judged: every "
@@ -269,7 +269,7 @@ class C05(EmuCheck):
         terminating branch; random move requests; original and reordered block run from the same state"""
         out = []
         R = [6, 7, 8, 9]
-        n = 250 if tier == "quick" else 5000
+        n = 120 if tier == "quick" else 5000
         for bi in range(n):
             words = []
             for _ in range(rng.randrange(3, 8)):
@@ -326,7 +326,10 @@ class C05(EmuCheck):
         hs = helper.histories(3, depschk.ALLK, "C05-gen")
         if tier == "thorough":
             hs += helper.histories(4, [1, 2, 3, 6, 7, 9, 10, 12, 13, 14], "C05-gen4")
-        self.exhaustive = True
+        self.exhaustive = tier == "thorough"
+        if tier == "quick":
+            # quick tier: a sixth of the reachable orders (rotating with the seed); thorough: all of them
+            hs = [h for i, h in enumerate(hs) if (i + seed) % 6 == 0]
         # abstract pre-pass on the real code: which histories reorder a conflicting pair?
         dg = []
         for i, h in enumerate(hs):
@@ -349,8 +352,6 @@ class C05(EmuCheck):
             moves = [[0, c["from"], c["to"]] for c in g[1:]]
             if not moves:
                 continue
-            if tier == "quick" and i not in flagged and (i + seed) % 3:
-                continue            # quick tier: a third of the orders (rotating with the seed); thorough: all
             n = len(g[0]["ins"])
             for s in range(2 if (tier == "thorough" or i in flagged) else 1):
                 gs.append(self.abs_group("h%d_%d" % (i, s), g[0]["ins"], moves, [], rng.randrange(1 << 30), n))
@@ -358,7 +359,7 @@ class C05(EmuCheck):
         gs += self.real_blocks(rng, tier)
         # multi-block codes: instruction moves and block moves
         multi = [h for h in hs if len(h["kinds"]) >= 2]
-        for i in range(100 if tier == "quick" else 2000):
+        for i in range(60 if tier == "quick" else 2000):
             parts = [rng.choice(multi) for _ in range(rng.choice([2, 3]))]
             ins, a, starts, moves = [], 0, [], []
             for bi, h in enumerate(parts):
